@@ -189,6 +189,7 @@ package pegnet
 //@   pure
 //@   ensures !isRejectErr(result1)
 //@   ensures result1 == nil ==> (forall k int :: 0 <= k && k < len(result0) ==> result0[k] != nil && fresh(result0[k]) && result0[k].Entry.Hash != nil && tickersInRange(result0[k].Transactions) && Lhold[*result0[k].Entry.Hash] == height)
+//@   ensures result1 == nil ==> (forall j int, k int :: 0 <= j && j < k && k < len(result0) ==> *result0[j].Entry.Hash != *result0[k].Entry.Hash)
 //@   ensures envHealthy ==> result1 == nil
 //@
 //@ func (Pegnet).SelectBankEntry
